@@ -602,6 +602,81 @@ func c12Renegotiate(srvMsize, newMsize uint32, burst, pending int, stallAt int, 
 	}}
 }
 
+// c12VersionBehindSameTag: the Tversion that lowers msize has to wait for an older
+// request with the same tag (NOTAG) and is carried out only when that one finishes,
+// not when it is read. Whenever that is: from the Rversion on, frames larger than the
+// negotiated msize are refused and replies fit it.
+func c12VersionBehindSameTag(srvMsize, newMsize uint32, dotu bool) Scenario {
+	name := fmt.Sprintf("version-behind-a-request-with-its-tag %d->%d dotu=%v", srvMsize, newMsize, dotu)
+	return Scenario{Name: name, Run: func(rc *RunCtx) *Result {
+		res := &Result{Exhaustive: true}
+		var fail string
+		body := func() {
+			fs := NewFS()
+			h := NewSrvH(fs, SrvOpt{Msize: srvMsize, Dotu: dotu})
+			c := h.Connect()
+			ver := "9P2000"
+			if dotu {
+				ver = "9P2000.u"
+			}
+			c.Version(srvMsize, ver)
+			c.Rpc(tattach(1, 0, wire.NOFID, "glenda", 7, dotu))
+			g := vs.NewSem(0)
+			fs.Script[reqKey{0, wire.NOTAG, 0}] = &Action{Gate: g}
+			before := len(c.Collect())
+			c.Send(dotu, &wire.Msg{Type: wire.Tstat, Tag: wire.NOTAG, Fid: 0})
+			vs.Idle()
+			c.Send(false, &wire.Msg{Type: wire.Tversion, Tag: wire.NOTAG, Msize: newMsize, Version: ver})
+			vs.Idle()
+			g.Release()
+			vs.Idle()
+			fr := c.Collect()[before:]
+			seenV := false
+			for _, f := range fr {
+				if f.Msg != nil && f.Msg.Type == wire.Rversion && f.Msg.Msize == newMsize {
+					seenV = true
+				}
+			}
+			if !seenV {
+				// the library may answer such a Tversion differently; nothing was negotiated then
+				return
+			}
+			n0 := len(c.Collect())
+			fs.Script[reqKey{0, 9, 0}] = &Action{StatName: strings.Repeat("N", 300)}
+			c.Send(dotu, &wire.Msg{Type: wire.Tstat, Tag: 9, Fid: 0})
+			vs.Idle()
+			big := &wire.Msg{Type: wire.Twrite, Tag: 10, Fid: 5, Data: make([]byte, newMsize)}
+			c.Send(dotu, big)
+			vs.Idle()
+			for _, f := range c.Collect()[n0:] {
+				if uint32(len(f.Raw)) > newMsize {
+					fail = fmt.Sprintf("a reply of %d bytes was sent after an Rversion that negotiated msize %d", len(f.Raw), newMsize)
+					return
+				}
+				if f.Msg != nil && f.Msg.Tag == 10 {
+					fail = fmt.Sprintf("a frame of %d bytes, larger than the msize %d negotiated by the Rversion before it, was answered: %v", len(wire.Encode(big, dotu)), newMsize, f.Msg)
+					return
+				}
+			}
+			if !c.End.PeerClosed() {
+				fail = fmt.Sprintf("connection still open after a frame larger than the negotiated msize %d", newMsize)
+			}
+		}
+		x := vs.Run(nil, body, vs.Options{})
+		res.Evals++
+		res.Nontrivial++
+		if len(x.Panics) > 0 {
+			fail = "panic: " + x.Panics[0].Value + " at " + x.Panics[0].Frame
+		} else if len(x.Fails) > 0 && fail == "" {
+			fail = "harness: " + x.Fails[0]
+		}
+		if fail != "" {
+			res.Findings = append(res.Findings, Finding{Sig: "C12/version-behind-same-tag/" + sigWords(fail), Msg: name + ": " + fail})
+		}
+		return res
+	}}
+}
+
 func c12Scenarios(tier string) []Scenario {
 	var out []Scenario
 	sms := []uint32{0, 23, 24, 25, 32, 256, 8216, 65560, 1<<20 + 24}
@@ -628,6 +703,7 @@ func c12Scenarios(tier string) []Scenario {
 		out = append(out, c12Pipelined(pr[0], pr[1], false), c12Pipelined(pr[0], pr[1], true))
 	}
 	out = append(out, c12RefusedVersion(false), c12RefusedVersion(true))
+	out = append(out, c12VersionBehindSameTag(8216, 256, false), c12VersionBehindSameTag(8216, 64, true))
 	i := 0
 	for _, pending := range []int{0, 1, 3} {
 		for _, at := range []int{-1, 0, 70, 140} {
